@@ -26,7 +26,7 @@ compares content to decide whether two nodes are the same node: `seen` sets hold
 
 Not modelled: Entry names / attributes other than None, int and str (bool, float); `isin`,
 `matches`; n-ary `All(...)`/`Any(...)` built by hand (the operators `&`, `|` only build binary
-ones); int/slice indexing; `where` with a bare callable, `choose`, `nth`; opaque callables are a parameter
+ones); int/slice indexing; `choose`, `nth`; opaque callables are a parameter
 `ρ : Env` (the theorems hold for every ρ; the driver instantiates a concrete family).
 -/
 namespace IV.Query
@@ -423,5 +423,86 @@ def top (i : Nat) (t : Tree) : Node := ⟨[], t, [i]⟩
 
 /-- the documents of a forest as objects: number i has identity `[i]` -/
 def tops (docs : List Tree) : List Node := kidsFrom [] [] 0 docs
+
+/-! ### plain Python callables used as predicates: partial functions
+
+A name / attribute query or the argument of `where` may be any Python callable.  Called on a value it
+returns something (judged by its truth value) or raises — ANY exception class.  The engine wraps it
+(`try: return q(x)  except: return False`), so that to the engine it is the partial function
+`Val → Option Bool` and "raises" is `none` is "does not match" (`guard`).  The family below is the
+concrete set of ordinary-looking predicates the harness defines in Python with the same text
+(harness/c20.py NATURAL): each raises on some names / attribute values through the operation that
+naturally raises there (IndexError on '', KeyError on a name not in the table, ZeroDivisionError on 0,
+TypeError on None / int / str of the wrong kind, a user-defined class, ValueError from str.index,
+AttributeError on None / int, StopIteration, AssertionError, UnicodeEncodeError). -/
+
+/-- `bool(v)` for a name / attribute value -/
+def truthy : Val → Bool
+  | .none => false
+  | .int i => i != 0
+  | .str s => !s.isEmpty
+
+/-- the dict `WEIGHTS` of the harness -/
+def weights : List (Val × Int) :=
+  [(.str ['a'], 3), (.str ['b'], 1), (.str ['A'], 2), (.str ['a', 'b'], 0), (.int 5, 7), (.none, 2)]
+
+/-- natural predicate number k on a value -/
+def natCall : Nat → Val → Out
+  | 0, .str (c :: _) => .ret (decide ('A'.toNat ≤ c.toNat ∧ c.toNat ≤ 'Z'.toNat))   -- 'A' <= n[0] <= 'Z'
+  | 1, v => match weights.lookup v with                                              -- WEIGHTS[n] >= 2
+      | some w => .ret (decide (w ≥ 2))
+      | none => .raise
+  | 2, .int i => if i = 0 then .raise else .ret (decide (10 % i = 0))                 -- 10 % n == 0
+  | 3, .str s => .ret (decide (s.length > 1))                                         -- len(n) > 1
+  | 4, v => if v = .str ['b'] ∨ v = .int 0 then .raise else .ret (v != .none)         -- raise UserDefinedError / n is not None
+  | 5, .str s => match s.findIdx? (· == 'a') with                                     -- n.index("a") >= 1
+      | some i => .ret (decide (i ≥ 1))
+      | none => .raise
+  | 6, .str s => if s.contains 'a' then .ret true else .raise                         -- next(c for c in n if c == "a") == "a"
+  | 7, v => if truthy v then .ret (v != .str ['b']) else .raise                       -- assert n; n != "b"
+  | 8, v => .ret (truthy v)                                                           -- lambda n: n   (a non-bool result)
+  | 9, .str s => if s.all (fun c => c.toNat < 128) then .ret (!s.isEmpty) else .raise -- n.encode("ascii") != b""
+  | _, _ => .raise
+
+/-- the dict `CHILDREN_WANTED` of the harness -/
+def wanted : List (Val × Nat) := [(.str ['a'], 1), (.str ['b'], 2), (.str ['A'], 0)]
+
+/-- natural predicate number k on an ENTRY (the argument of `where(callable)`) -/
+def natCallE : Nat → Node → Out
+  | 0, e => match e.attrs with                                   -- e.attrs[0] == "a"
+      | [] => .raise
+      | a :: _ => .ret (decide (a = .str ['a']))
+  | 1, e => match e.kids with                                    -- e.children[0]._name == e._name
+      | [] => .raise
+      | c :: _ => .ret (decide (c.name = e.name))
+  | 2, e => if e.attrs.length = 0 then .raise else .ret (decide (10 % e.attrs.length = 0))   -- 10 % len(e.attrs) == 0
+  | 3, e => match e.attrs.getLast? with                          -- e.attrs[-1] > 1
+      | none => .raise
+      | some a => primEval .gt a (.int 1)
+  | 4, e => match wanted.lookup e.name with                      -- CHILDREN_WANTED[e._name] == len(e.children)
+      | some w => .ret (decide (w = e.kids.length))
+      | none => .raise
+  | 5, e => .ret (!e.kids.isEmpty)                               -- lambda e: e.children   (a non-bool result)
+  | _, _ => .raise
+
+/-- `Entry.where(f)` for a plain callable `f`, called on the ENTRY itself inside try/except: the entry's
+children if `f(entry)` returns something true, nothing if it returns something false or raises -/
+def entryWhereFn (f : Node → Out) (e : Node) : List Node := if guard (f e) then e.kids else []
+
+/-- `Result.where(f)`: the result's own children on which `f` returns something true -/
+def resultWhereFn (f : Node → Out) (children : List Node) : List Node := children.filter (fun c => guard (f c))
+
+/-- `q in entry` (`Entry.__contains__`): `len(self[q]) > 0` -/
+def entryContains (ρ : Env) (e : Node) (q : Query) : Bool := !(entryGetitem ρ e q).isEmpty
+
+/-- `q in result`: over the grandchildren -/
+def resultContains (ρ : Env) (children : List Node) (q : Query) : Bool := !(resultGetitem ρ children q).isEmpty
+
+/-- `entry.<name>` (`Entry.__getattr__` for a name that is not a member): `entry["<name>"]` -/
+def entryGetattr (ρ : Env) (e : Node) (name : Str) : List Node := entryGetitem ρ e (.name (.lit (.str name)))
+
+/-- `result.<name>` -/
+def resultGetattr (ρ : Env) (children : List Node) (name : Str) : List Node :=
+  resultGetitem ρ children (.name (.lit (.str name)))
 
 end IV.Query
